@@ -72,6 +72,7 @@ func c01Devs() []c01Dev {
 		{"tx-section>=128(pad)", tx0(func(t *cargen.TxShape) { t.TxPad = 40 })},
 		{"tx-pad-300", tx0(func(t *cargen.TxShape) { t.TxPad = 300 })},
 		{"tx-section>=16384", tx0(func(t *cargen.TxShape) { t.TxPad = 900; t.Meta.Pad = 16000 })},
+		{"tx-section>=65536", tx0(func(t *cargen.TxShape) { t.TxPad = 900; t.Meta.Pad = 70000 })},
 		{"meta-empty", tx0(func(t *cargen.TxShape) { t.NoMeta = true })},
 		{"meta-2-frames", tx0(func(t *cargen.TxShape) { t.Meta = cargen.PayloadShape{Pad: 300, FrameSize: 200} })},
 		{"meta-5-frames-fanout2", tx0(func(t *cargen.TxShape) { t.Meta = cargen.PayloadShape{Pad: 900, FrameSize: 200, FanOut: 2} })},
@@ -242,6 +243,18 @@ func c01CheckEpoch(e *vEpoch, access string) (class, detail string) {
 			return "fetch-by-cid-bytes", fmt.Sprintf("[%s] object %d (%s): %d bytes returned, %d stored, differ", access, i, o.Cid, len(got), len(o.Data))
 		}
 		held = append(held, got)
+	}
+	// fetched again (and a third time): the later fetches are answered with the help of the look-up cache
+	for round := 2; round <= 3; round++ {
+		for i, o := range t.Objects {
+			got, err := ep.GetNodeByCid(ctx, o.Cid)
+			if err != nil {
+				return "fetch-by-cid-again", fmt.Sprintf("[%s] object %d (%s), fetch number %d: %v", access, i, o.Cid, round, err)
+			}
+			if !bytes.Equal(got, o.Data) {
+				return "fetch-by-cid-again-bytes", fmt.Sprintf("[%s] object %d (%s), fetch number %d: %d bytes returned, %d stored, differ", access, i, o.Cid, round, len(got), len(o.Data))
+			}
+		}
 	}
 	// the caller keeps what it was given: the bytes of an object must not change when other objects are fetched
 	for i, o := range t.Objects {
